@@ -1,4 +1,4 @@
-// archive stack, part 4 of 6: mechanically generated type grid (see a.inc, grid.h)
-#pragma GCC optimize("O0") // grid translation units: compile time matters, run time does not
+// archive stack, parts 4 and 5: mechanically generated type grid (see a.inc, grid.h)
+#pragma GCC optimize("O0") // grid translation unit: compile time matters, run time does not
 #define C09_A_PART 4
 #include "a.inc"
